@@ -2801,14 +2801,14 @@ func (pc *persistConn) readLoop() {
 		}
 
 		resp.Body = body
-		if rc.addedGzip && ascii.EqualFold(resp.Header.Get("Content-Encoding"), "gzip") {
+		if rc.addedGzip && ascii.EqualFold(compress.ContentEncoding(resp.Header), "gzip") {
 			resp.Body = &gzipReader{body: body}
 			resp.Header.Del("Content-Encoding")
 			resp.Header.Del("Content-Length")
 			resp.ContentLength = -1
 			resp.Uncompressed = true
 		} else if pc.t.AutoDecompression {
-			contentEncoding := resp.Header.Get("Content-Encoding")
+			contentEncoding := compress.ContentEncoding(resp.Header)
 			// only touch the response if the content coding is supported
 			if cr := compress.NewCompressReader(resp.Body, contentEncoding); cr != nil {
 				resp.Header.Del("Content-Encoding")
